@@ -180,7 +180,20 @@ def compare(base, other, what):
             if isinstance(a, dict):
                 ks = [k for k in set(a) | set(b) if a.get(k) != b.get(k)]
                 k0 = sorted(ks, key=str)[0]
-                errs.append((key, "%s differs for %s: base %s, transformed %s (%d entries differ)" % (key, k0, a.get(k0), b.get(k0), len(ks))))
+                sub = key
+                if key == "assignments":
+                    # a tail exactly apa_delta (50) away from the annotated end: "correct" polyA site on one strand, "alternative" one on
+                    # the other, because the polyT position is reported 2 bases off (root cause of the polyT known finding)
+                    def strip(v):
+                        return tuple(tuple(tuple(e for e in x if "polya_site" not in e) if isinstance(x, tuple) else x for x in rec) for rec in (v or ()))
+
+                    def has(v, word):
+                        return any(word in e for rec in (v or ()) for x in rec if isinstance(x, tuple) for e in x)
+                    if all(a.get(k) is not None and b.get(k) is not None and strip(a.get(k)) == strip(b.get(k)) and
+                           {has(a.get(k), "correct_polya_site"), has(b.get(k), "correct_polya_site")} == {True, False} and
+                           {has(a.get(k), "alternative_polya_site"), has(b.get(k), "alternative_polya_site")} == {True, False} for k in ks):
+                        sub = "assignments:polya-site-at-apa-delta-boundary"
+                errs.append((sub, "%s differs for %s: base %s, transformed %s (%d entries differ)" % (key, k0, a.get(k0), b.get(k0), len(ks))))
             else:
                 # models: pair up models with equal intron chain and strand whose ends differ by a few bases
                 oa, ob = sorted(a - b), sorted(b - a)
@@ -345,6 +358,19 @@ def case(args):
         third[0][0] += ds
         third[-1][1] += de
         w["reads"].append({"name": "e3", "chr": "chr1", "blocks": third, "reverse": strand == "-"})
+        if tails == 2:
+            # two tail clusters 60 bp apart (three reads each) at the 3' side; the extra read carries a tail as well and ends between /
+            # next to them: which cluster it joins must not depend on the orientation
+            side = -1 if strand == "+" else 0
+            for i in (4, 5, 6):
+                b = [list(x) for x in novel]
+                if strand == "+":
+                    b[-1][1] += 60
+                else:
+                    b[0][0] -= 60
+                w["reads"].append(dict({"name": "e%d" % i, "chr": "chr1", "blocks": b, "reverse": strand == "-"}, **tail))
+            w["reads"].append(dict({"name": "e7", "chr": "chr1", "blocks": [list(x) for x in novel], "reverse": strand == "-"}, **tail))
+            w["reads"][2].update(tail)
         w["reads"].append({"name": "edge", "chr": "chr1", "blocks": [[1, 300]], "reverse": False})
         tag = "ends-%s%d_%d_%d" % ("p" if strand == "+" else "m", tails, ds, de)
         extra = ["--model_construction_strategy", "all"]
@@ -494,6 +520,9 @@ def run(ctx):
                 for de in offs:
                     if (ds, de) != (0, 0):
                         jobs.append(("ends", (strand, tails, ds, de), "reflect", ctx.scratch))
+        # two tail clusters 60 bp apart, the extra read's tail next to / between them (offsets along the 3' side, apa_delta = 50 included)
+        for off in ((-30, 25, 50) if quick else (-30, -10, 10, 20, 25, 30, 35, 40, 50, 70, 90)):
+            jobs.append(("ends", (strand, 2, 0 if strand == "+" else -off, off if strand == "+" else 0), "reflect", ctx.scratch))
     for which in (0, 1):
         for tr in ("reflect", 257):
             jobs.append(("mmtie", which, tr, ctx.scratch))
